@@ -98,6 +98,26 @@ pub fn run(rep: &mut StageReport, tier: &str, _seed: u64) {
             v.push(("raw: no client certificate → server B".to_string(), false, raw_attempt(sb.addr, &read_der(&b.client_ca()).unwrap(), ClientIdentity::None, &t(11)).await));
             v.push(("raw: self-signed client cert → server B".to_string(), false, raw_attempt(sb.addr, &read_der(&b.client_ca()).unwrap(), id_ss.clone(), &t(12)).await));
             let _ = id_srv; // (a server certificate used as client identity chains to the CA: the statement does not decide this cell)
+            // --- server started from PEM files whose certificate file is a chain: [its leaf (from CA-A), CA-B's
+            // certificate]. Extra certificates in the server's own chain file must not widen whom it trusts.
+            let pem_dir = scratch_dir().join(format!("pem-{}", round));
+            let _ = std::fs::create_dir_all(&pem_dir);
+            let chain = format!("{}{}", pem("CERTIFICATE", &read_der(&a.server_cert()).unwrap()), pem("CERTIFICATE", &read_der(&b.server_ca()).unwrap()));
+            let (cert_pem, key_pem, ca_pem) = (pem_dir.join("fullchain.pem"), pem_dir.join("key.pem"), pem_dir.join("ca.pem"));
+            let _ = std::fs::write(&cert_pem, chain);
+            let _ = std::fs::write(&key_pem, pem("PRIVATE KEY", &read_der(&a.server_key()).unwrap()));
+            let _ = std::fs::write(&ca_pem, pem("CERTIFICATE", &read_der(&a.server_ca()).unwrap()));
+            match start_server_with(&ca_pem, &cert_pem, &key_pem) {
+                Ok(sc) => {
+                    v.push(("raw: trusted-CA client cert → server A started from PEM files (chain file = leaf + unrelated CA-B certificate)".to_string(), true, raw_attempt(sc.addr, &ca_a, id_a.clone(), &t(14)).await));
+                    v.push(("raw: client cert from CA-B, whose certificate merely appears in the server's chain file → that server".to_string(), false, raw_attempt(sc.addr, &ca_a, id_b.clone(), &t(15)).await));
+                    v.push(("raw: self-signed client cert → that server".to_string(), false, raw_attempt(sc.addr, &ca_a, id_ss.clone(), &t(16)).await));
+                    v.push(("lib: client cert from CA-B → that server".to_string(), false, lib_attempt(&sc.endpoint(), &a.client_ca(), &b.client_cert(), &b.client_key(), &t(17)).await));
+                    sc.stop();
+                }
+                Err(e) => v.push(("server from PEM files".to_string(), true, Err(format!("INCONCLUSIVE server start from PEM files failed: {e}")))),
+            }
+            let _ = std::fs::remove_dir_all(&pem_dir);
             sa.stop();
             sb.stop();
             v
